@@ -202,9 +202,12 @@ def replay(d):
 
 def check(run):
     run.level = "other"
-    run.explanation = ("bounded stand-in: the rule-selection layer (Property class hierarchy, kwargs-driven construction from JSON) and RDKit bond surgery are outside "
-                       "the verified subset; every acyclic single bond of hand-picked and corpus molecules is cut, the open fragments are obtained through the production "
+    run.explanation = ("deductive for the rule selection in merge.py (expand_boundary, merge_boundaries, update_compound: the rule applied is the first applicable one "
+                       "of its list; NoExpandRule / None exactly when none is applicable); the rules' own conditions and RDKit bond surgery are outside "
+                       "the verified subset, so conservation and reconstruction are a bounded stand-in: every acyclic single bond of hand-picked and corpus molecules is cut, the open fragments are obtained through the production "
                        "path (find_missing_parts_pairs with the complementary fragment as common substructure, build_compounds) and given to the real merge")
+    # deductive part: the rule selection of merge.py ("first applicable rule wins"), for every rule list
+    run.deductive(["contracts.merge_select"])
     rnd = random.Random(run.seed)
     mols = list(SEED_MOLS) + [s for s in c07_native.corpus_molecules(limit=40 if run.tier == "quick" else 1500, seed=run.seed)
                               if chem.mol(s) is not None and 3 <= chem.mol(s).GetNumAtoms() <= (18 if run.tier == "quick" else 30)]
